@@ -9,8 +9,8 @@
 pub mod vsrc;
 pub mod models;
 
-/// Declare a harness: `harness!(name, unwind N, { body })` or with the `wmul` stub:
-/// `harness!(name, unwind N, wmul, { body })`.
+/// Declare a harness: `harness!(name, unwind N, { body })`, optionally with stubs:
+/// `harness!(name, unwind N, wmul, { .. })`, `... wmul_ln ...`, `... ln ...`.
 #[macro_export]
 macro_rules! harness {
     ($name:ident, unwind $n:literal, $body:block) => {
@@ -24,9 +24,25 @@ macro_rules! harness {
         #[cfg_attr(kani, kani::stub(<usize as rand::distributions::utils::WideningMultiply>::wmul, $crate::models::stub_wmul))]
         pub fn $name() $body
     };
+    ($name:ident, unwind $n:literal, wmul_ln, $body:block) => {
+        #[cfg_attr(kani, kani::proof)]
+        #[cfg_attr(kani, kani::unwind($n))]
+        #[cfg_attr(kani, kani::stub(<usize as rand::distributions::utils::WideningMultiply>::wmul, $crate::models::stub_wmul))]
+        #[cfg_attr(kani, kani::stub(f64::ln, $crate::models::stub_ln))]
+        pub fn $name() $body
+    };
+    ($name:ident, unwind $n:literal, ln, $body:block) => {
+        #[cfg_attr(kani, kani::proof)]
+        #[cfg_attr(kani, kani::unwind($n))]
+        #[cfg_attr(kani, kani::stub(f64::ln, $crate::models::stub_ln))]
+        #[cfg_attr(kani, kani::stub(f64::log2, $crate::models::stub_log2))]
+        pub fn $name() $body
+    };
 }
 
 pub mod h_bloom;
 pub mod h_cms;
+pub mod h_hll;
+pub mod h_reservoir;
 
 pub mod registry;
